@@ -367,6 +367,9 @@ ITEMS = location_types() + budget_types() + error_types() + [
              (r'let mut buf: SmallVec<\[Ev; SMALLVECT_INLINE\]> = SmallVec::new\(\);', 'let mut buf: Vec<Ev> = Vec::new();', None, 'R6'),
              (r'self\.per_anchor_expansions\.resize\(anchor_id \+ 1, 0\)', 'vec_resize_zero(&mut self.per_anchor_expansions, anchor_id + 1)', None, 'R8'),
              (r'self\.rec_stack\.iter\(\)\.any\(\|frame\| frame\.id == anchor_id\)', 'any_frame_id(&self.rec_stack, anchor_id)', None, 'R8'),
+             # (no such call in the pinned tree) `rec_stack.first().is_some_and(|f| f.id OP anchor_id)`: the comparison is made on the outermost open frame only
+             (r'self\.rec_stack\.first\(\)\.is_some_and\(\|(\w+)\| \1\.id (<=|<|==|>=|>) anchor_id\)',
+              r'(self.rec_stack.len() > 0 && self.rec_stack[0].id \2 anchor_id)', None, 'R8'),
              (r'crate::anchor_store::recursive_anchor_in_progress\(anchor_id\)', 'recursive_anchor_in_progress(anchor_id)', None, 'R8'),
              (r'String::new\(\)\.into\(\)', 'cowstr_empty()', None, 'R8'),
              (r'Error::multiple_documents\(\s*"use from_multiple or from_multiple_with_options",\s*\)', 'error_multiple_documents("use from_multiple or from_multiple_with_options")', None, 'R8'),
@@ -392,7 +395,9 @@ ITEMS = location_types() + budget_types() + error_types() + [
                         && count == (if anchor_id < pae0.len() { if pae0[anchor_id as int] == usize::MAX { usize::MAX } else { (pae0[anchor_id as int] + 1) as usize } } else { 1usize }));'''),
              dict(before='let next_depth = self.inject.len() + 1;', label='C08:the_per_anchor_expansion_limit_is_checked_on_the_bumped_counter', props=['C08'],
                   text='assert(count <= self.alias_limits.max_alias_expansions_per_anchor); within_anchor_limit = true;'),
-             dict(before_re=r'if any_frame_id\(', label='C08:the_replay_nesting_limit_is_checked_before_the_frame_is_pushed', props=['C08'],
+             dict(before_re=r'return Err\(Error::RecursiveReferencesRequireWeakTypes \{ location \}\);', label='C02:an_alias_is_refused_as_recursive_only_while_its_own_anchor_is_still_being_recorded', props=['C02'],
+                  text='assert(exists|j: int| 0 <= j < self.rec_stack@.len() && (#[trigger] self.rec_stack@[j]).id == anchor_id);'),
+             dict(before_re=r'if [^{;]*\{\s*if recursive_anchor_in_progress\(anchor_id\)', label='C08:the_replay_nesting_limit_is_checked_before_the_frame_is_pushed', props=['C08'],
                   text='assert(self.inject@.len() == inj0 && inj0 + 1 <= self.alias_limits.max_replay_stack_depth); within_depth_limit = true;'),
              dict(before='self.inject.push(InjectFrame {', label='C08:an_alias_is_pushed_for_replay_only_after_both_limits_were_checked', props=['C08'],
                   text='assert(within_anchor_limit && within_depth_limit && self.inject@.len() == inj0);'),
